@@ -1213,10 +1213,11 @@ def generate_j_part_cb_from_jump_operators(
     """
     dim = jump_operators[0].shape[0]
     identity = np.eye(dim)
-    terms = [
-        mutil.kron(opertor, identity) + mutil.kron(identity, opertor.conj())
-        for opertor in jump_operators
-    ]
+    # GKSL: -1/2 {c^dagger c, rho} for every jump operator c
+    terms = []
+    for opertor in jump_operators:
+        cdag_c = opertor.conj().T @ opertor
+        terms.append(mutil.kron(cdag_c, identity) + mutil.kron(identity, cdag_c.conj()))
     j_part_cb = -1 / 2 * reduce(add, terms)
     return j_part_cb
 
